@@ -33,7 +33,7 @@ RUN_ACTIONS = ["StaticStep", "StepAsg", "StepAug", "StepIf", "StepForRange", "St
                "StepLoopEnd", "StepBlockEnd"]
 LENIENT = {"global_options": {"error_on_uninitialized": False}}
 TIERS = {
-    "quick": dict(random=70, inputs=5, arith_random=150, chunk=140, tlc_timeout=900),
+    "quick": dict(random=40, inputs=4, arith_random=150, chunk=140, tlc_timeout=900),
     "thorough": dict(random=1400, inputs=8, arith_random=3000, chunk=220, tlc_timeout=3000),
 }
 WORKERS = int(os.environ.get("VERIF_TLC_WORKERS", "0") or 0) or None
